@@ -9,7 +9,10 @@
 // kernel's self tests re-check a sample with math/big.
 package exact
 
-import "sort"
+import (
+	"sort"
+	"sync"
+)
 
 const MaxCoord = 64
 
@@ -201,14 +204,12 @@ type Shape struct {
 	segs     [][2]P // skeleton cache
 	extSegs  [][2]P
 	holeSegs [][][2]P
-	prepared bool
+	once     sync.Once
 }
 
-func (s *Shape) prep() {
-	if s.prepared {
-		return
-	}
-	s.prepared = true
+func (s *Shape) prep() { s.once.Do(s.prep1) }
+
+func (s *Shape) prep1() {
 	switch s.Kind {
 	case KPoint:
 		s.segs = [][2]P{{s.Pt, s.Pt}}
@@ -597,9 +598,12 @@ func ringsTouch(a, b [][2]P) (touch, shared bool) {
 			if SegsIntersect(g[0], g[1], h[0], h[1]) {
 				touch = true
 				if Orient(g[0], g[1], h[0]) == 0 && Orient(g[0], g[1], h[1]) == 0 {
-					// collinear and intersecting: shared segment unless they meet end to end
-					ts := critical(nil, g[0], g[1], h[0], h[1])
-					if len(ts) == 2 && !fracEq(ts[0], ts[1]) {
+					// collinear: shared segment iff the overlap has positive length
+					rx, ry := g[1].X-g[0].X, g[1].Y-g[0].Y
+					n0 := (h[0].X-g[0].X)*rx + (h[0].Y-g[0].Y)*ry
+					n1 := (h[1].X-g[0].X)*rx + (h[1].Y-g[0].Y)*ry
+					lo, hi := max64(0, min64(n0, n1)), min64(rx*rx+ry*ry, max64(n0, n1))
+					if hi > lo {
 						shared = true
 					}
 				}
